@@ -26,6 +26,11 @@ def dispatch(I, f, args, kw, st, node):
         raise ToolLimit("call on masked array")
     if k == "repo":
         return repo_call(I, n, args, kw, st, node)
+    if k == "method":
+        return method_call(I, f.recv, n, args, kw, st, node)
+    if k == "time" and n == "time":
+        I.ctx.dropped.append("time.time() at line %d: modelled as an arbitrary real (wall-clock stamps)" % node.lineno)
+        return I.ctx.fresh("walltime", "Real")
     if k == "spec":
         raise ToolLimit("spec function %s used as value" % n)
     raise ToolLimit("call %s.%s (line %s)" % (k, n, node.lineno))
@@ -244,6 +249,14 @@ def numpy_fn(I, n, args, kw, st, node):
 
 def arr_method(I, ref, n, args, kw, st, node):
     rec = st.heap[ref.oid]
+    if n == "get_loc":
+        # pandas DatetimeIndex.get_loc(d) on the simulation calendar (assumed contract on pandas: the position k with index[k] == d;
+        # KeyError when absent).  The calendar is a gap-free daily sequence (clock axiom), so k = d - index[0].
+        d = args[0]
+        k = arith("-", d, z3.Select(rec.term, 0))
+        ok = b_and(compare(">=", k, 0), compare("<", k, rec.length), compare("==", z3.Select(rec.term, z(k)), d))
+        I.ctx.oblige("get_loc_present", ok, st, node, "", SAFETY_TAG, note="KeyError: date not in the simulation calendar")
+        return k
     if n == "copy":
         return I.alloc_array(st, rec.term, rec.length, rec.elem, "copy")
     if n == "flatten":
@@ -299,6 +312,16 @@ def repo_call(I, name, args, kw, st, node):
     if fname in inline or I.ctx.contract.options.get("inline_all"):
         return inline_call(I, rel, fname, args, kw, st, node)
     raise ToolLimit("call to %s (%s): no contract and not declared inline" % (fname, rel))
+
+
+def method_call(I, recv, name, args, kw, st, node):
+    """self.method(...) inside a class of the repo: modular call through the contract registered as Class.method (same file)."""
+    rec = st.heap[recv.oid]
+    qual = "%s.%s" % (rec.cls, name)
+    c = I.ctx.registry.lookup(I.ctx.relpath, qual)
+    if c is None:
+        raise ToolLimit("call of method %s: no contract" % qual)
+    return modular_call(I, c, [recv] + list(args), kw, st, node)
 
 
 def bind_params(fn, args, kw, node):
